@@ -106,7 +106,8 @@ class C01(Prop):
         "gather (flat cross product) is in the model and in the correspondence but has no theorem.")
     TECHNIQUE = ("Coq proof (projection of the multi-key state machine onto one key, closed form on incomplete prefixes, "
                  "uniqueness of sorted permutations) + vm_compute correspondence against the real steps")
-    RULE = ("rt: nested lists (1..3 scatter levels; lengths biased to 0,1,9..12, up to 40; scalar, list and object "
+    RULE = ("eng: a real workflow scatter(s) -> concurrent element-wise step -> gather(s) run by StreamFlowExecutor under an "
+            "event loop that permutes its ready queue with the case's seed (oracle only); rt: nested lists (1..3 scatter levels; lengths biased to 0,1,9..12, up to 40; scalar, list and object "
             "leaves) through real ScatterStep(s), an element-wise map and real GatherStep(s), arrivals = seeded shuffle "
             "of element and size tokens with termination tokens at random legal positions; multi: 2..4 lists with "
             "distinct (possibly prefix-related) tags through one scatter and one gather, interleaved; raw: arbitrary "
@@ -169,7 +170,7 @@ class C01(Prop):
         return ".".join(str(rng.choice([0, 1, 2, 9, 10, 11, 12, 100])) for _ in range(d))
 
     def gen(self, rng, tier):
-        n = {"quick": 150, "thorough": 2000, "extended": 1000}[tier]
+        n = {"quick": 150, "thorough": 1000, "extended": 600}[tier]
         cases = []
         for _ in range(n):
             r = rng.random()
@@ -193,6 +194,12 @@ class C01(Prop):
                               "map": rng.choice(["id", "wrap"]), "order": self._seed(rng)})
             else:
                 cases.append(self._raw(rng))
+        for _ in range({"quick": 25, "thorough": 300, "extended": 60}[tier]):
+            ctr = [0]
+            levels = rng.choice([1, 1, 2, 2, 3])
+            cases.append({"f": "eng", "tag": self._tag(rng), "levels": levels,
+                          "value": self._value(rng, self._caps(rng, levels), ctr),
+                          "map": rng.choice(["id", "wrap"]), "sched": rng.randrange(1, 10**9)})
         if tier == "thorough":   # every arrival order of a 3-element list with its size token, terminations last
             import itertools
             base = [["E", ["T", f"0.{i}", str(i)]] for i in range(3)] + [["S", "0", 3]]
@@ -241,6 +248,43 @@ class C01(Prop):
         from streamflow.workflow.step import GatherStep, ScatterStep
 
         self.Status, self.GatherStep, self.ScatterStep = Status, GatherStep, ScatterStep
+        import asyncio
+        import posixpath
+
+        from streamflow.core.utils import get_entity_ids
+        from streamflow.workflow.executor import StreamFlowExecutor
+        from streamflow.workflow.step import BaseStep
+
+        e = self.e
+        self.Executor = StreamFlowExecutor
+
+        class ConcMap(BaseStep):
+            """harness stand-in for the element-wise step between scatter and gather: every element is processed
+            by its own task, which yields a seeded number of times, so results leave in a schedule-dependent order"""
+            rnd = None
+            wrap = False
+
+            async def run(self):
+                inp, out = self.get_input_port(), self.get_output_port()
+
+                async def work(tok):
+                    for _ in range(self.rnd.randrange(0, 8)):
+                        await asyncio.sleep(0)
+                    new = e.Token([tok.value], tag=tok.tag) if (self.wrap and type(tok) is e.Token) else tok.retag(tok.tag)
+                    out.put(await self._persist_token(token=new, port=out, input_token_ids=get_entity_ids([tok])))
+
+                tasks = []
+                while True:
+                    tok = await inp.get(posixpath.join(self.name, "x"))
+                    if isinstance(tok, e.TerminationToken):
+                        status = tok.value
+                        break
+                    tasks.append(asyncio.create_task(work(tok)))
+                if tasks:
+                    await asyncio.gather(*tasks)
+                await self.terminate(self._get_status(status))
+
+        self.ConcMap = ConcMap
 
     def _build_leaf(self, v, tag):
         e = self.e
@@ -375,9 +419,65 @@ class C01(Prop):
         finally:
             await ctx.close()
 
+    async def _eng(self, c, rnd):
+        e = self.e
+        ctx = e.build_context()
+        try:
+            wf = e.Workflow(ctx, config={}, name="w")
+            port = first = wf.create_port()
+            sizes = []
+            for lv in range(c["levels"]):
+                sc = wf.create_step(self.ScatterStep, name=f"/s/l{lv}-scatter")
+                sc.add_input_port("x", port)
+                port = wf.create_port()
+                sc.add_output_port("x", port)
+                sizes.append(sc.get_size_port())
+            m = wf.create_step(self.ConcMap, name="/s/map")
+            m.rnd, m.wrap = rnd, c["map"] == "wrap"
+            m.add_input_port("x", port)
+            port = wf.create_port()
+            m.add_output_port("x", port)
+            g = None
+            for lv in reversed(range(c["levels"])):
+                g = wf.create_step(self.GatherStep, name=f"/s/l{lv}-gather", size_port=sizes[lv], depth=1)
+                g.add_input_port("x", port)
+                port = wf.create_port()
+                g.add_output_port("x", port)
+            await wf.save(ctx.database)
+            first.put(self._build(c["value"], c["levels"], c["tag"]))
+            first.put(e.TerminationToken())
+            err = None
+            try:
+                await self.Executor(wf).run()
+            except Exception as ex:
+                err = type(ex).__name__
+            outs = [self.sd.canon_tok(e, x) for x in port.token_list if not isinstance(x, e.TerminationToken)]
+            terms = [x.value.name for x in port.token_list if isinstance(x, e.TerminationToken)]
+            o = {"final": outs, "terms": terms, "gstatus": g.status.name,
+                 "statuses": sorted({st.status.name for st in wf.steps.values()})}
+            if err:
+                o["err"] = err
+            return o
+        finally:
+            await ctx.close()
+
     def impl_run(self, c):
         import asyncio
 
+        if c["f"] == "eng":
+            rnd = random.Random(c["sched"])
+
+            class ShuffleLoop(asyncio.SelectorEventLoop):
+                def _run_once(self):
+                    if len(self._ready) > 1:
+                        items = list(self._ready)
+                        rnd.shuffle(items)
+                        self._ready.clear()
+                        self._ready.extend(items)
+                    super()._run_once()
+
+            with asyncio.Runner(loop_factory=ShuffleLoop) as runner:
+                return runner.run(self._eng(c, rnd))
         return asyncio.run(self._run(c))
 
     # ---------------------------------------------------------------- oracle (from the property text)
@@ -387,7 +487,9 @@ class C01(Prop):
         for s in o.get("steps", []):
             if s.get("err") and c["f"] != "raw":
                 return ("step-raises", f"{s['k']} step raised {s['err']}")
-        if c["f"] == "rt":
+        if c["f"] == "eng" and o.get("err"):
+            return ("workflow-fails", f"scatter/map/gather workflow raised {o['err']} (step statuses {o.get('statuses')})")
+        if c["f"] in ("rt", "eng"):
             want = expected_plain(c["value"], c["levels"], c["map"] == "wrap")
             fin = o.get("final", [])
             if len(fin) != 1:
@@ -397,9 +499,12 @@ class C01(Prop):
             got = tok_plain(fin[0])
             if got != want:
                 return ("original-order", f"gathered {json.dumps(got)[:400]} but the scattered list was {json.dumps(want)[:400]}")
-            last = [s for s in o["steps"] if s["k"] == "gather"][-1]
-            if last["status"] != "COMPLETED" or last["terms"] != ["COMPLETED"]:
-                return ("completed", f"gather ended with status {last['status']}, termination tokens {last['terms']}")
+            last = {"status": o["gstatus"], "terms": o["terms"]} if c["f"] == "eng" else \
+                [s for s in o["steps"] if s["k"] == "gather"][-1]
+            # the text says nothing about the status; only require a clean end (an empty list through the real
+            # pipeline ends SKIPPED because the scatter emitted no element, and still delivers the empty list)
+            if last["status"] not in ("COMPLETED", "SKIPPED") or len(last["terms"]) != 1:
+                return ("clean-end", f"gather ended with status {last['status']}, termination tokens {last['terms']}")
         if c["f"] == "multi":
             wrap = c["map"] == "wrap"
             want = sorted(json.dumps([l["tag"], expected_plain(l["value"], 1, wrap)], sort_keys=True) for l in c["lists"])
@@ -440,7 +545,7 @@ class C01(Prop):
             def big(v, lv):
                 return lv > 0 and (len(v) >= 10 or any(big(x, lv - 1) for x in v))
             return big(c["value"], c["levels"]) or any(s != 0 for s in c["orders"])
-        if c["f"] == "multi":
+        if c["f"] in ("multi", "eng"):
             return True
         return len(c["arr"]) >= 3
 
@@ -448,7 +553,7 @@ class C01(Prop):
         return f"{c['f']}/{clause}"
 
     def shrink(self, c):
-        if c["f"] == "rt":
+        if c["f"] in ("rt", "eng"):
             def smaller(v, lv):
                 if lv == 0:
                     return
@@ -459,7 +564,7 @@ class C01(Prop):
                         yield v[:i] + [s] + v[i + 1:]
             if c["map"] != "id":
                 yield {**c, "map": "id"}
-            for i, s in enumerate(c["orders"]):
+            for i, s in enumerate(c.get("orders", [])):
                 if s not in (0, 1):
                     yield {**c, "orders": c["orders"][:i] + [0] + c["orders"][i + 1:]}
                     yield {**c, "orders": c["orders"][:i] + [1] + c["orders"][i + 1:]}
